@@ -46,6 +46,9 @@ LEVEL_TEXT += (
     "dot accumulates in a vector with one entry per row in a common "
     "dtype; interpolate returns as many fields as the basis functions "
     "have components.")
+LEVEL_TEXT += (
+    " Added in the second hunting round (DESIGN.md 9.6): "
+    "dense N-tensor conversion keeps the data type.")
 LEVEL_NOTE = (
     "Trusted: scipy coo_matrix sums duplicates and takes (data, (row, "
     "col)); numpy flatten/zeros/sum semantics. Local sizes are symbolic in "
